@@ -118,6 +118,13 @@ pub open spec fn within(a: int, alen: int, b: int, blen: int) -> bool {
     b <= a && alen >= 0 && a + alen <= b + blen
 }
 
+/// alignment requirement of `T` at `addr`.  Alignments are powers of two (Rust
+/// guarantee), so any alignment <= 8 divides 8; stating it this way keeps the
+/// variable-modulus `%` out of the solver's way.
+pub open spec fn ptr_aligned<T>(addr: int) -> bool {
+    (align_of::<T>() <= 8 && addr % 8 == 0) || addr % (align_of::<T>() as int) == 0
+}
+
 // raw pointer primitives ---------------------------------------------------
 pub assume_specification<T>[<[T]>::as_ptr](s: &[T]) -> (p: *const T)
     ensures p@.addr == slice_addr(s), p@.provenance == slice_prov(s);
@@ -159,7 +166,7 @@ pub assume_specification<T: core::marker::PointeeSized>[<*const T>::cast_mut](p:
 pub fn deref_raw<'a, T>(p: *const T) -> (r: &'a T)
     requires
         in_prov(p@.provenance, p@.addr as int, size_of::<T>() as int),
-        p@.addr as int % align_of::<T>() as int == 0,
+        ptr_aligned::<T>(p@.addr as int),
     ensures
         ref_addr(r) == p@.addr,
         ref_prov(r) == p@.provenance,
@@ -174,7 +181,7 @@ pub fn deref_raw<'a, T>(p: *const T) -> (r: &'a T)
 pub fn read_raw<T: Copy>(p: *const T) -> (r: T)
     requires
         in_prov(p@.provenance, p@.addr as int, size_of::<T>() as int),
-        p@.addr as int % align_of::<T>() as int == 0,
+        ptr_aligned::<T>(p@.addr as int),
     ensures
         r == decode::<T>(mem_at(p@.provenance, p@.addr as int, size_of::<T>() as int)),
 {
@@ -197,7 +204,7 @@ pub mod slice {
     pub unsafe fn from_raw_parts<'a, T>(p: *const T, n: usize) -> (r: &'a [T])
         requires
             in_prov(p@.provenance, p@.addr as int, n * size_of::<T>()),
-            p@.addr as int % align_of::<T>() as int == 0,
+            ptr_aligned::<T>(p@.addr as int),
         ensures
             slice_addr(r) == p@.addr, slice_prov(r) == p@.provenance, r@.len() == n,
     {
